@@ -4,6 +4,7 @@
 //! Ops: `kv <key> <value>` and `reopen` (DbValue text = C20 value syntax of the derived enum).
 
 use crate::Ctx;
+use crate::raw::{Raw, KIND_NAMES};
 use crate::Stream;
 use crate::Tier;
 use crate::guard::Fail;
@@ -11,10 +12,8 @@ use crate::guard::guarded;
 use crate::rng::Rng;
 use crate::types::Tv;
 use crate::types::gen_f64;
-use crate::val::V;
 use agdb::Db;
 use agdb::DbError;
-use agdb::DbF64;
 use agdb::DbFile;
 use agdb::DbId;
 use agdb::DbImpl;
@@ -34,8 +33,11 @@ const FLOAT_BATCH: u64 = 64;
 const MAX_LEN: u64 = 40;
 
 struct Entry {
+    /// what the op line said (conversion-free) …
+    key_raw: Raw,
+    value_raw: Raw,
+    /// … and the key `DbValue` built from it through the public conversion (for select-by-key)
     key: DbValue,
-    value: DbValue,
     /// node id in each database (None if the insert failed there)
     ids: [Option<DbId>; 3],
 }
@@ -186,35 +188,76 @@ impl C12Stream {
         }
     }
 
-    /// the read-back oracle for one node in one database; `after_reopen` selects the key family
-    fn check_answer(&self, variant: usize, e_key: &DbValue, e_value: &DbValue, ans: &Answer, after_reopen: bool, ctx: &mut Ctx) {
-        let expected = format!("{}={}", text(e_key), text(e_value));
+    /// the read-back oracle for one node in one database, END TO END: what comes back (taken apart
+    /// with the public accessors) is compared with the ORIGINAL raw data of the op line, not with
+    /// the already converted `DbValue` that was inserted. `after_reopen` selects the key family.
+    fn check_answer(&self, variant: usize, k_raw: &Raw, v_raw: &Raw, ans: &Answer, after_reopen: bool, ctx: &mut Ctx) {
+        let expected = format!("{}={}", k_raw.text(), v_raw.text());
         for (form, got) in [("readback", &ans.0), ("select-by-key", &ans.1)] {
-            let same = got.len() == 1
-                && got[0].key == *e_key
-                && got[0].value == *e_value
-                && text(&got[0].key) == text(e_key)
-                && text(&got[0].value) == text(e_value);
-            if !same {
+            let when = if after_reopen { " after reopen" } else { "" };
+            let observed = format!("{} ({form} on {}{when})", kvs_text(got), VARIANTS[variant]);
+            if got.len() != 1 {
                 let key = if after_reopen && variant != 0 {
                     format!("C12/reopen/{}", VARIANTS[variant])
                 } else {
                     format!("C12/{form}/{}", VARIANTS[variant])
                 };
-                let rule = if form == "readback" {
-                    "select().ids(id) returns exactly the inserted (key, value), bit for bit"
-                } else {
-                    "select().values([key]).ids(id) returns exactly the inserted (key, value), bit for bit"
-                };
-                let when = if after_reopen { " after reopen" } else { "" };
-                ctx.violation(&key, rule, &expected, &format!("{} ({form} on {}{when})", kvs_text(got), VARIANTS[variant]));
+                ctx.violation(&key, "exactly the inserted property is returned", &expected, &observed);
+                continue;
+            }
+            for (pos, orig, back) in [("key", k_raw, &got[0].key), ("value", v_raw, &got[0].value)] {
+                match orig.diff(&Raw::read(back)) {
+                    None => {}
+                    Some(true) => ctx.violation(
+                        &format!("C12/float-bits-changed/{}", KIND_NAMES[orig.kind()]),
+                        "an f64 given to the database (DbValue::from(f64) / DbF64::from / Vec<f64>) reads back with the same 64 bits",
+                        &expected,
+                        &format!("{observed}: {pos} bits differ"),
+                    ),
+                    Some(false) => {
+                        let key = if after_reopen && variant != 0 {
+                            format!("C12/reopen/{}", VARIANTS[variant])
+                        } else {
+                            format!("C12/{form}/{}", VARIANTS[variant])
+                        };
+                        let rule = if form == "readback" {
+                            "select().ids(id) returns exactly the original (key, value), bit for bit"
+                        } else {
+                            "select().values([key]).ids(id) returns exactly the original (key, value), bit for bit"
+                        };
+                        ctx.violation(&key, rule, &expected, &format!("{observed}: {pos} differs"));
+                    }
+                }
             }
         }
     }
 
+    /// the public conversion itself must not change the data (checked before the database is involved)
+    fn check_conversion(&self, orig: &Raw, built: &DbValue, ctx: &mut Ctx) {
+        match orig.diff(&Raw::read(built)) {
+            None => {}
+            Some(true) => ctx.violation(
+                &format!("C12/float-bits-changed/{}", KIND_NAMES[orig.kind()]),
+                "an f64 given to the database (DbValue::from(f64) / DbF64::from / Vec<f64>) keeps its 64 bits",
+                &orig.text(),
+                &format!("{} (right after the From conversion)", text(built)),
+            ),
+            Some(false) => ctx.violation(
+                &format!("C12/conversion/{}", KIND_NAMES[orig.kind()]),
+                "DbValue::from(x) holds exactly x",
+                &orig.text(),
+                &format!("{} (right after the From conversion)", text(built)),
+            ),
+        }
+    }
+
     fn op_kv(&mut self, line: &str, key: &str, value: &str, ctx: &mut Ctx) -> String {
-        let (Some(kv), Some(vv)) = (V::parse(key), V::parse(value)) else { return bad_op(ctx) };
-        let (Some(k), Some(v)) = (DbValue::from_v(&kv), DbValue::from_v(&vv)) else { return bad_op(ctx) };
+        let (Some(k_raw), Some(v_raw)) = (Raw::parse(key), Raw::parse(value)) else { return bad_op(ctx) };
+        // enter through the public conversions, alternating between the two routes of each kind
+        let alt = self.entries.len() % 2 == 1;
+        let (k, v) = (k_raw.build(alt), v_raw.build(!alt));
+        self.check_conversion(&k_raw, &k, ctx);
+        self.check_conversion(&v_raw, &v, ctx);
         ctx.bump(&format!("key:{}", VALUE_KINDS[kind_of(&k)]));
         ctx.bump(&format!("value:{}", VALUE_KINDS[kind_of(&v)]));
         let mut nontrivial = false;
@@ -253,7 +296,7 @@ impl C12Stream {
             match r {
                 Ok((id, ans)) => {
                     ids[i] = *id;
-                    self.check_answer(i, &k, &v, ans, false, ctx);
+                    self.check_answer(i, &k_raw, &v_raw, ans, false, ctx);
                 }
                 Err(b) => {
                     let out = self.report_bad(i, "kv", b, ctx);
@@ -264,7 +307,7 @@ impl C12Stream {
                 }
             }
         }
-        self.entries.push(Entry { key: k, value: v, ids });
+        self.entries.push(Entry { key_raw: k_raw, value_raw: v_raw, key: k, ids });
         let out = if let Some(p) = first_panic {
             p
         } else if let Some(e) = first_bad {
@@ -310,7 +353,7 @@ impl C12Stream {
                 match a {
                     // the insert already failed (and was reported) in this database
                     None => {}
-                    Some(Ok(ans)) => self.check_answer(i, &e.key, &e.value, ans, true, ctx),
+                    Some(Ok(ans)) => self.check_answer(i, &e.key_raw, &e.value_raw, ans, true, ctx),
                     Some(Err(b)) => {
                         let out = self.report_bad(i, "read back after reopen", b, ctx);
                         match b {
@@ -343,7 +386,7 @@ impl C12Stream {
             }
             let k = gen_value(rng, true);
             let v = gen_value(rng, false);
-            lines.push(format!("kv {} {}", text(&k), text(&v)));
+            lines.push(format!("kv {} {}", k.text(), v.text()));
         }
         lines.push("reopen".to_string());
         if crate::vidx::ENABLED {
@@ -351,7 +394,7 @@ impl C12Stream {
             let mut stored = vec![];
             for _ in 0..rng.range(1, 4) {
                 let v = gen_value(rng, false);
-                lines.push(format!("vrt {}", text(&v)));
+                lines.push(format!("vrt {}", v.text()));
                 stored.push(v);
             }
             for _ in 0..rng.range(0, 3) {
@@ -364,17 +407,17 @@ impl C12Stream {
     /// thorough tier, first part: every byte length 0..=40 for Bytes / ascii String / multi-byte String,
     /// once as key and once as value
     fn gen_len_sweep_case(&mut self, len: usize) -> Vec<String> {
-        let small = DbValue::U64(len as u64);
-        let bytes = DbValue::Bytes((0..len).map(|i| [0x00, 0xff, 0x80, 0x7f, i as u8][i % 5]).collect());
-        let ascii = DbValue::String((0..len).map(|i| (b'a' + (i % 26) as u8) as char).collect());
-        let multi = DbValue::String(multibyte_exact(len));
+        let small = Raw::U64(len as u64);
+        let bytes = Raw::Bytes((0..len).map(|i| [0x00, 0xff, 0x80, 0x7f, i as u8][i % 5]).collect());
+        let ascii = Raw::Str((0..len).map(|i| b'a' + (i % 26) as u8).collect());
+        let multi = Raw::Str(multibyte_exact(len).into_bytes());
         let mut lines = vec![];
         for x in [&bytes, &ascii, &multi] {
-            lines.push(format!("kv {} {}", text(x), text(&small)));
+            lines.push(format!("kv {} {}", x.text(), small.text()));
         }
         lines.push("reopen".to_string());
         for x in [&bytes, &ascii, &multi] {
-            lines.push(format!("kv {} {}", text(&small), text(x)));
+            lines.push(format!("kv {} {}", small.text(), x.text()));
         }
         lines.push("reopen".to_string());
         lines
@@ -383,8 +426,16 @@ impl C12Stream {
     fn gen_float_sweep_case(&mut self, rng: &mut Rng) -> Vec<String> {
         let mut lines = vec![];
         for i in 0..FLOAT_BATCH {
-            let f = DbValue::F64(DbF64::from(f64::from_bits(rng.next())));
-            lines.push(format!("kv {} {}", text(&DbValue::U64(i)), text(&f)));
+            // original bit patterns, never passed through f64 arithmetic or DbF64 before printing;
+            // every 8th one is a special (signed zero / NaN / subnormal / infinity)
+            let bits = if i % 8 == 0 { gen_float_bits(rng) } else { rng.next() };
+            let (k, f) = (Raw::U64(i), Raw::F64(bits));
+            // floats as values, and every 4th time as the key as well
+            if i % 4 == 1 {
+                lines.push(format!("kv {} {}", f.text(), k.text()));
+            } else {
+                lines.push(format!("kv {} {}", k.text(), f.text()));
+            }
         }
         lines.push("reopen".to_string());
         lines
@@ -533,19 +584,41 @@ fn gen_vec_len(rng: &mut Rng) -> usize {
     if rng.chance(1, 4) { 0 } else { rng.range(1, 5) as usize }
 }
 
-fn gen_value(rng: &mut Rng, _is_key: bool) -> DbValue {
-    match rng.below(12) {
-        0 | 1 => DbValue::Bytes(gen_bytes(rng)),
-        2 => DbValue::I64(gen_int_i(rng)),
-        3 => DbValue::U64(gen_int_u(rng)),
-        4 => DbValue::F64(DbF64::from(gen_float(rng))),
-        5..=7 => DbValue::String(gen_string_len(rng)),
-        8 => DbValue::VecI64((0..gen_vec_len(rng)).map(|_| gen_int_i(rng)).collect()),
-        9 => DbValue::VecU64((0..gen_vec_len(rng)).map(|_| gen_int_u(rng)).collect()),
-        10 => DbValue::VecF64((0..gen_vec_len(rng)).map(|_| DbF64::from(gen_float(rng))).collect()),
-        _ => DbValue::VecString(
-            (0..gen_vec_len(rng)).map(|_| if rng.chance(1, 4) { String::new() } else { gen_string_len(rng) }).collect(),
+fn gen_value(rng: &mut Rng, _is_key: bool) -> Raw {
+    match rng.below(14) {
+        0 | 1 => Raw::Bytes(gen_bytes(rng)),
+        2 => Raw::I64(gen_int_i(rng)),
+        3 => Raw::U64(gen_int_u(rng)),
+        4 | 5 => Raw::F64(gen_float_bits(rng)),
+        6..=8 => Raw::Str(gen_string_len(rng).into_bytes()),
+        9 => Raw::VecI64((0..gen_vec_len(rng)).map(|_| gen_int_i(rng)).collect()),
+        10 => Raw::VecU64((0..gen_vec_len(rng)).map(|_| gen_int_u(rng)).collect()),
+        11 | 12 => Raw::VecF64((0..gen_vec_len(rng)).map(|_| gen_float_bits(rng)).collect()),
+        _ => Raw::VecStr(
+            (0..gen_vec_len(rng)).map(|_| if rng.chance(1, 4) { vec![] } else { gen_string_len(rng).into_bytes() }).collect(),
         ),
+    }
+}
+
+/// f64 BIT PATTERNS (never passed through f64 arithmetic): signed zeros, quiet and signalling NaNs
+/// with payloads (both signs), subnormals, infinities, extremes, random patterns
+fn gen_float_bits(rng: &mut Rng) -> u64 {
+    const SIGN: u64 = 1 << 63;
+    const EXP: u64 = 0x7ff << 52;
+    const QUIET: u64 = 1 << 51;
+    let sign = if rng.chance(1, 2) { SIGN } else { 0 };
+    match rng.below(12) {
+        0 => sign,                                                     // +0.0 / -0.0
+        1 => SIGN,                                                     // -0.0
+        2 => sign | EXP,                                               // infinities
+        3 => sign | EXP | QUIET | (rng.next() & (QUIET - 1)),          // quiet NaN + payload
+        4 | 5 => sign | EXP | ((rng.next() & (QUIET - 1)).max(1)),     // signalling NaN + payload
+        6 => sign | (rng.next() & ((1 << 52) - 1)).max(1),             // subnormal
+        7 => sign | 1,                                                 // smallest subnormal
+        8 => sign | (1 << 52),                                         // MIN_POSITIVE
+        9 => sign | (EXP - 1),                                         // MAX
+        10 => gen_float(rng).to_bits(),
+        _ => rng.next(),
     }
 }
 
